@@ -283,7 +283,7 @@ pub proof fn lemma_kept_len(vs: Seq<f64>, min_len: int, max: int)
 }
 
 //@ITEM file=metrics-exporter-dogstatsd/src/writer.rs sel=fn write_metric_trailer
-//@REWRITE R2c global_labels.chain(tags) ==> shim_chain(global_labels, tags)
+//@REWRITE R2c re:\b(\w+)\.chain\((\w+)\) ==> shim_chain(\1, \2)
 //@FORLOOP 1 it
 //@SPEC
     ensures
@@ -553,7 +553,7 @@ impl PayloadWriter {
     }
 
 //@ITEM file=metrics-exporter-dogstatsd/src/writer.rs sel=impl PayloadWriter :: fn write_trailing
-//@REWRITE R2d global_labels.iter() ==> shim_slice_iter(global_labels)
+//@REWRITE R2d re:\b(\w+)\.iter\(\) ==> shim_slice_iter(\1)
 //@SPEC
     ensures
         final(self).buf@ == old(self).buf@ + trailer_bytes(None, refs(global_labels@) + key.label_seq(), timestamp),
@@ -640,8 +640,8 @@ impl PayloadWriter {
 
 //@ITEM file=metrics-exporter-dogstatsd/src/writer.rs sel=impl PayloadWriter :: fn write_hist_dist_inner ret=r
 //@REWRITE R2 let values = values.into_iter(); ==> let values = shim_into_iter(values);
-//@REWRITE R2d global_labels.iter() ==> shim_slice_iter(global_labels)
-//@REWRITE R2e values.len() ==> shim_exact_len(&values)
+//@REWRITE R2d re:\b(\w+)\.iter\(\) ==> shim_slice_iter(\1)
+//@REWRITE R2e re:\bvalues\.len\(\) ==> shim_exact_len(&values)
 //@FORLOOP 1 it
 //@SPEC
     requires
@@ -820,6 +820,35 @@ impl PayloadWriter {
             assert(Self::hist_post(old(self), self, chunks, result, key, vals, metric_type, maybe_sample_rate, prefix, global_labels));
         }
 //@END
+
+//@ITEM file=metrics-exporter-dogstatsd/src/writer.rs sel=impl PayloadWriter :: fn write_histogram ret=r
+//@SPEC
+    requires
+        old(self).wf(), old(self).tail().len() == 0,
+        prefix_bytes(prefix).len() + key.name_bytes().len() + trailer_bytes(maybe_sample_rate, refs(global_labels@) + key.label_seq(), None).len() + 64 <= usize::MAX,
+        into_remaining(&values).len() <= usize::MAX,
+    ensures
+        final(self).wf(), final(self).tail().len() == 0,
+        final(self).max_payload_len == old(self).max_payload_len,
+        final(self).with_length_prefix == old(self).with_length_prefix,
+        forall|i: int| 0 <= i < old(self).nframes() ==> #[trigger] final(self).frame(i) == old(self).frame(i),
+        exists|chunks: Seq<Seq<f64>>| Self::hist_post(old(self), final(self), chunks, r, key, into_remaining(&values), 104u8, maybe_sample_rate, prefix, global_labels),
+//@END
+
+//@ITEM file=metrics-exporter-dogstatsd/src/writer.rs sel=impl PayloadWriter :: fn write_distribution ret=r
+//@SPEC
+    requires
+        old(self).wf(), old(self).tail().len() == 0,
+        prefix_bytes(prefix).len() + key.name_bytes().len() + trailer_bytes(maybe_sample_rate, refs(global_labels@) + key.label_seq(), None).len() + 64 <= usize::MAX,
+        into_remaining(&values).len() <= usize::MAX,
+    ensures
+        final(self).wf(), final(self).tail().len() == 0,
+        final(self).max_payload_len == old(self).max_payload_len,
+        final(self).with_length_prefix == old(self).with_length_prefix,
+        forall|i: int| 0 <= i < old(self).nframes() ==> #[trigger] final(self).frame(i) == old(self).frame(i),
+        exists|chunks: Seq<Seq<f64>>| Self::hist_post(old(self), final(self), chunks, r, key, into_remaining(&values), 100u8, maybe_sample_rate, prefix, global_labels),
+//@END
+
 
 
 }
